@@ -236,7 +236,8 @@ func checkC03(c *Check, p *Program) {
 		fs := fieldStores(reqAlloc)
 		for f, sts := range fs {
 			for _, st := range sts {
-				ok := instrDominates(st, first) && !inAnyLoop(st.Block())
+				// the field is settled before the first transmission: the store cannot happen after it
+				ok := !instrReaches(first, st) && st != ssa.Instruction(first) && !inAnyLoop(st.Block()) && instrReaches(st, first)
 				c.Decide(ok, "C03.S2", FuncName(sender)+" request."+f.Name()+" fixed before first send", p.InstrPos(st), "stored once before the first transmission", "the request's "+f.Name()+" is written after (or not before) the first transmission: retransmissions differ")
 			}
 		}
